@@ -1569,6 +1569,51 @@ def check_c14(run):
                 else:
                     run.violation("%s panics at %s on a text the grammar accepts" % (what, site), {"spec": o["text"], "site": site, "message": r.get("msg")})
                 break
+    unrolled_array_probe(run)
+
+
+def unrolled_array_probe(run):
+    """fixed-length arrays are decoded by unrolled reads: the emitted text (and the memory generate
+    needs to build it) is proportional to the declared length.  Measured on feasible lengths;
+    the extreme length is run in the CLI under a 2 GiB address-space limit (finding F16)."""
+    import resource
+    import subprocess
+    try:
+        exe = build_cli(run)
+    except TieBroken as e:
+        run.oblige("the fastxdr binary builds from /repo", False, str(e))
+        return
+    d = os.path.join(xv.WORK, "runs", "c14_unroll")
+    os.makedirs(d, exist_ok=True)
+    sizes = {}
+    for n in (1000, 100000, 1000000):
+        p = os.path.join(d, "u%d.x" % n)
+        open(p, "w").write("typedef float x[%d];\n" % n)
+        r = subprocess.run([exe, p], stdout=subprocess.PIPE, stderr=subprocess.PIPE)
+        sizes[n] = len(r.stdout) if r.returncode == 0 else -1
+        run.case(("unrolled", n))
+    run.cov["generated_bytes_by_fixed_length"] = sizes
+    p = os.path.join(d, "huge.x")
+    witness = "typedef float x[4294967295];"
+    open(p, "w").write(witness + "\n")
+
+    def limits():
+        resource.setrlimit(resource.RLIMIT_AS, (2 << 30, 2 << 30))
+    try:
+        r = subprocess.run([exe, p], stdout=subprocess.DEVNULL, stderr=subprocess.PIPE, preexec_fn=limits, timeout=600)
+        rc, err = r.returncode, r.stderr.decode("utf-8", "replace")[-300:]
+    except subprocess.TimeoutExpired:
+        rc, err = None, "no result within 600 s"
+    run.cov["huge_fixed_array_outcome"] = {"returncode": rc, "stderr": err}
+    graceful = rc is not None and rc >= 0 and rc in (0, 1) and "memory allocation" not in err and "panicked" not in err
+    if not graceful:
+        if any(f["id"] == "F16" for f in run.known["findings"]):
+            run.known_hit("F16", "F16 generate('%s') neither returns Ok/Err nor panics within reason: fixed-length arrays are decoded by "
+                                 "unrolled reads, 30 bytes of text per element -- 129 GB for this 30-byte specification; under a 2 GiB "
+                                 "address space the process is killed by a failed allocation" % witness)
+        else:
+            run.violation("generate('%s') aborts the process (memory allocation of the unrolled decoder text fails)" % witness,
+                          {"spec": witness, "returncode": rc, "stderr": err, "generated_bytes_by_fixed_length": sizes})
 
 
 def check_c15(run):
